@@ -237,6 +237,7 @@ def c16(rep, env):
         IR.check_outgoing_calls(rep, fb)
         IR.check_clone_bodies(rep, fb)
     per_config(rep, env, f, light=True)
+    IR.run_controls(rep, "own.")
 
 
 def c17(rep, env):
@@ -245,6 +246,7 @@ def c17(rep, env):
         IR.check_wrapper_debug(rep, fb)
     per_config(rep, env, f, light=True)
     IR.check_zeroize(rep, env.fb("all-features"))
+    IR.run_controls(rep, "leak.")
 
 
 PROOF_NOTE = ("Static decision over the generic MIR of /repo's current tree: kernels are summarised by abstract interpretation in a free term "
@@ -267,8 +269,8 @@ REGISTRY = {
     "C13": {"run": c13, "level": "proof", "floors": {"cts.no-panic": 72, "cts.gate.exact": 12, "cts.gate.no-side-effect": 12, "b2b": 3, "ivsize": 21, "panic.site-covered": 40}},
     "C14": {"run": c14, "level": "proof", "floors": {"cts.layout": 36, "buf.def": 12, "buf.init": 2, "ofb.one-backend": 1, "ofb.same-function": 2, "alias.wrapper": 8, "keyinit.blanket": 21}},
     "C15": {"run": c15, "level": "proof", "floors": {"dep.kind": 24, "ctr.ks.data-independent": 6}},
-    "C16": {"run": c16, "level": "proof", "floors": {"own.fields-by-value": 62, "own.clone-fieldwise": 58, "own.no-std": 18, "own.no-unsafe": 18, "own.calls-allow-listed": 18}},
-    "C17": {"run": c17, "level": "other", "floors": {"leak.debug-opaque": 66, "leak.alias-debug-opaque": 16, "leak.zeroize-field": 24}},
+    "C16": {"run": c16, "level": "proof", "floors": {"own.fields-by-value": 62, "own.clone-fieldwise": 58, "own.no-std": 18, "own.no-unsafe": 18, "own.calls-allow-listed": 18, "control.own": 5}},
+    "C17": {"run": c17, "level": "other", "floors": {"leak.debug-opaque": 66, "leak.alias-debug-opaque": 16, "leak.zeroize-field": 24, "control.leak": 5}},
 }
 for _k, _v in REGISTRY.items():
     _v.setdefault("explanation", PROOF_NOTE)
